@@ -33,6 +33,8 @@ def instruction_bytes(g):
     k = g.int(0, 9)
     if k < 4:
         pre = [g.pick([0x48, 0x49, 0x4c, 0x4d, 0x41, 0x44, 0x66])] if g.chance(0.6) else []
+        if g.chance(0.15):
+            pre = [g.pick([0x64, 0x65, 0x2e, 0x26])] + pre          # segment override: %fs:(%rax,%rbx,1)
         return pre + list(g.pick(LEGACY_OPS)) + _modrm_tail(g)
     if k < 6:
         if g.chance(0.5):
